@@ -237,24 +237,15 @@ func TestCrossRecordsRefcodecWrites(t *testing.T) {
 			}
 		}
 	}
-	// DISAGREEMENTS.md #8: kafka-go assumes that the inner messages of every
-	// compressed wrapper (magic 0 and 1) carry relative offsets 0..n-1.
+	// DISAGREEMENTS.md #8 (kafka-go assumed that the inner messages of every
+	// compressed wrapper carry relative offsets 0..n-1) was repaired in
+	// kafka-go ("fix: protocol: absolute offsets of compressed v0/v1 messages
+	// use the last inner offset"): every layout must now be read correctly.
 	for k, n := range total {
 		t.Logf("compressed legacy wrappers %+v: kafka-go computed wrong offsets in %d of %d", k, wrong[k], n)
-		if k.relative && !k.holes && wrong[k] != 0 {
-			t.Errorf("kafka-go mis-read consecutive KIP-31 relative offsets")
+		if wrong[k] != 0 {
+			t.Errorf("kafka-go mis-read the offsets of compressed legacy wrappers %+v in %d of %d cases", k, wrong[k], n)
 		}
-	}
-	abs, gaps := 0, 0
-	for k, n := range wrong {
-		if !k.relative {
-			abs += n
-		} else if k.holes {
-			gaps += n
-		}
-	}
-	if abs == 0 || gaps == 0 {
-		t.Errorf("DISAGREEMENTS.md #8 did not occur (absolute: %d, relative with gaps: %d wrong)", abs, gaps)
 	}
 }
 
